@@ -4,6 +4,8 @@ CONSTANTS
   IdWriters = {"font_name"}
   MaxLen = 2
   MaxGen = 2
+  XChannels = {"cell_text", "cached_string"}
+  XEndBug = FALSE
 SPECIFICATION CSpec
 INVARIANTS WrittenSafe
 CHECK_DEADLOCK FALSE
